@@ -10,6 +10,7 @@ def fails : Stmt → Bool
   | .execFail => true
   | .prepFail => true
   | .queryFail => true
+  | .partialFail _ => true
   | _ => false
 
 def isCtl : Stmt → Bool
@@ -47,9 +48,9 @@ def genLoop (succ : Db → Stmt → Res) (stop : Bool) : Bool → Db → List St
         let p := genLoop succ stop tx db' rest
         (p.1, succ db s :: p.2.1, p.2.2)
       | none =>
-        if stop then (rollbackIgnore db, [.err], false)
+        if stop then (rollbackIgnore (failEffect db s), [.err], false)
         else
-          let p := genLoop succ stop tx db rest
+          let p := genLoop succ stop tx (failEffect db s) rest
           (p.1, .err :: p.2.1, p.2.2)
 
 theorem execLoop_eq (rb tx : Bool) (db : Db) (ss : List Stmt) :
@@ -87,7 +88,7 @@ theorem reqLoop_eq (rb tx : Bool) (db : Db) (ss : List Stmt) :
             simp [executeStmt, queryStmt, hr, ih, reqSucc, execSucc, hro]
       · have hs : s = .prepFail := by cases s <;> simp_all [prepares]
         subst hs
-        cases tx <;> cases rb <;> simp [prepares, sqlRun, abortOnError, ih]
+        cases tx <;> cases rb <;> simp [prepares, sqlRun, abortOnError, ih, failEffect]
 
 /-! ### plain specifications of the result list -/
 
@@ -100,7 +101,7 @@ def specAll (succ : Db → Stmt → Res) : Db → List Stmt → List Res
     else
       match sqlRun db s with
       | some db' => succ db s :: specAll succ db' rest
-      | none => .err :: specAll succ db rest
+      | none => .err :: specAll succ (failEffect db s) rest
 
 /-- the same, cut after the first failing statement -/
 def specStop (succ : Db → Stmt → Res) : Db → List Stmt → List Res
@@ -165,9 +166,9 @@ theorem genLoop_some (succ : Db → Stmt → Res) (stop tx : Bool) (db db' : Db)
 theorem genLoop_none (succ : Db → Stmt → Res) (stop tx : Bool) (db : Db) (s : Stmt) (rest : List Stmt)
     (he : s ≠ .empty) (h : sqlRun db s = none) :
     genLoop succ stop tx db (s :: rest) =
-      if stop then (rollbackIgnore db, [.err], false)
-      else ((genLoop succ stop tx db rest).1, .err :: (genLoop succ stop tx db rest).2.1,
-        (genLoop succ stop tx db rest).2.2) := by
+      if stop then (rollbackIgnore (failEffect db s), [.err], false)
+      else ((genLoop succ stop tx (failEffect db s) rest).1, .err :: (genLoop succ stop tx (failEffect db s) rest).2.1,
+        (genLoop succ stop tx (failEffect db s) rest).2.2) := by
   rw [genLoop]; simp [he, h]
 
 theorem specAll_empty (succ : Db → Stmt → Res) (db : Db) (rest : List Stmt) :
@@ -264,8 +265,13 @@ theorem genLoop_closed_ok (succ : Db → Stmt → Res) (stop tx : Bool) (c : Lis
 nothing after it is executed -/
 theorem genLoop_fail_stop (succ : Db → Stmt → Res) (tx : Bool) (db : Db) (f : Stmt) (post : List Stmt)
     (hf : sqlRun db f = none) (he : f ≠ .empty) :
-    genLoop succ true tx db (f :: post) = (rollbackIgnore db, [.err], false) := by
+    genLoop succ true tx db (f :: post) = (rollbackIgnore (failEffect db f), [.err], false) := by
   rw [genLoop_none _ _ _ _ _ _ he hf]; simp
+
+/-- rolling back after a failing statement inside an open transaction discards whatever it left -/
+theorem rollback_failEffect (c w : List Nat) (f : Stmt) :
+    rollbackIgnore (failEffect ⟨c, some w⟩ f) = ⟨c, none⟩ := by
+  cases f <;> simp [failEffect, rollbackIgnore, sqlRun, Db.write]
 
 theorem fails_sqlRun (db : Db) (f : Stmt) (h : fails f = true) : sqlRun db f = none ∧ f ≠ .empty := by
   cases f <;> simp_all [fails, sqlRun]
